@@ -16,6 +16,7 @@ import (
 	"os"
 	"regexp"
 	"strings"
+	"sync/atomic"
 	"testing"
 	"time"
 
@@ -49,10 +50,13 @@ func vfC03L1(data []byte, c vfC03L1Cfg) (lines []string, timedOut bool) {
 		opts = append(opts, WithFailOnModuleAux())
 	}
 	done := make(chan []string, 1)
+	// progress: bytes the parser has read, entries and commands it has produced
+	var rbytes, steps atomic.Int64
 	go func() {
 		var out []string
-		pipe := ParseRdb(bytes.NewReader(data), nil, 4, opts...)
+		pipe := ParseRdb(bytes.NewReader(data), &rbytes, 4, opts...)
 		for e := range pipe {
+			steps.Add(1)
 			if e.Err != nil {
 				out = append(out, "err")
 				break
@@ -78,6 +82,7 @@ func vfC03L1(data []byte, c vfC03L1Cfg) (lines []string, timedOut bool) {
 					}
 				}()
 				e.ObjectParser.ExecCmd(func(cmd string, args ...interface{}) error {
+					steps.Add(1)
 					cmds = append(cmds, "c "+vfc03.CanonCmd(cmd, args))
 					return nil
 				})
@@ -96,11 +101,25 @@ func vfC03L1(data []byte, c vfC03L1Cfg) (lines []string, timedOut bool) {
 		}()
 		done <- out
 	}()
-	select {
-	case out := <-done:
-		return out, false
-	case <-time.After(10 * time.Second):
-		return nil, true
+	// No wall-clock bound on a parse that makes progress (a loaded machine is slow, not wrong):
+	// the parser is declared hung only when, over two consecutive 60 s windows, it has neither
+	// read a byte nor produced an entry or a command.
+	last, idle := int64(-1), 0
+	for {
+		select {
+		case out := <-done:
+			return out, false
+		case <-time.After(60 * time.Second):
+			cur := rbytes.Load() + steps.Load()
+			if cur == last {
+				idle++
+				if idle >= 2 {
+					return nil, true
+				}
+			} else {
+				idle, last = 0, cur
+			}
+		}
 	}
 }
 
@@ -175,7 +194,7 @@ func TestVerifC03Dec(t *testing.T) {
 			// a hang on a well-formed snapshot means the sync never completes (C03);
 			// on a damaged one it belongs to C04 (truncation/alteration) and is only counted here
 			if src != "damaged" {
-				s.Violate("parser-hang", "parser did not finish within 10s",
+				s.Violate("parser-hang", "the parser made no progress (no byte read, no entry, no command) for 120 s",
 					map[string]interface{}{"cfg": c.String(), "file_hex": vfutil.Hex(data)})
 			}
 			return nil
@@ -240,6 +259,7 @@ func TestVerifC03Dec(t *testing.T) {
 	var descs []string
 	for i := 0; i < n; i++ {
 		ds := g.File(vfc03.FileOpts{MaxKeys: 5, Now: 946684800000, MultiDB: true, Modules: true, Huge: i == n/2,
+			Many: map[int]string{n/3: "slpmany", 2*n/3: "hlpmany"}[i],
 			Versions: []int{1, 6, 7, 8, 9, 10, 11, 12, 13}})
 		dss = append(dss, ds)
 		descs = append(descs, ds.Desc)
